@@ -331,7 +331,15 @@ pub fn run_case(c: &Case) -> CaseResult {
         for _ in 0..gap {
             second(&mut net, true, &mut extra, &mut log).map_err(|f| tag(f).with("phase", "between_injections"))?;
         }
-        if let Some(w2) = net.capture.as_ref().unwrap().get(k2).cloned() {
+        // k2 = usize::MAX: the most recent data datagram that travelled the same way at least 3 s ago (a late replay while
+        // whatever the first injection left behind is still there)
+        let w2 = if k2 == usize::MAX {
+            let cap = net.capture.as_ref().unwrap();
+            cap.iter().rev().find(|x| x.from == w.from && x.to == w.to && x.sent_at <= net.now - 3 && x.data.first() != Some(&0xff) && x.data.len() > 60).cloned()
+        } else {
+            net.capture.as_ref().unwrap().get(k2).cloned()
+        };
+        if let Some(w2) = w2 {
             if let Some(to2) = net.node_index(&w2.to) {
                 let r = util::catch(|| net.inject(to2, w2.from, w2.data.clone()));
                 if let Err(p) = r {
@@ -342,6 +350,9 @@ pub fn run_case(c: &Case) -> CaseResult {
                     for g in net.pop_frames(j) {
                         if !log.contains(&g) {
                             return Err(tag(Fail::new("forged_delivery", "second injected datagram delivered bytes that nobody sent")));
+                        }
+                        if k2 == usize::MAX {
+                            return Err(tag(Fail::new("late_replay_delivered", "a data datagram replayed 3 s or more after its first delivery was written to the interface again (after an earlier handshake replay)")).with("phase", "second_injection"));
                         }
                     }
                 }
@@ -357,7 +368,7 @@ pub fn run_case(c: &Case) -> CaseResult {
     Ok(1 + (kind != "sealed") as u64 * 2 + (c.source == "original") as u64 * 4)
 }
 
-fn cases(tier: Tier) -> Vec<Case> {
+pub fn cases(tier: Tier) -> Vec<Case> {
     let mut v = vec![];
     let scenarios: &[&str] = tier.pick(&["two_single", "three", "two_single_plain"][..], &["two_single", "two_dual", "three", "two_single_plain"][..]);
     for sc in scenarios {
@@ -400,6 +411,11 @@ fn cases(tier: Tier) -> Vec<Case> {
         let offs: &[i64] = if tier == Tier::Quick { &[61] } else { &[0, 5, 61, 121] };
         let gaps: &[i64] = if tier == Tier::Quick { &[0, 61] } else { &[0, 1, 5, 61, 121] };
         for &k1 in &hs {
+            for &offset in offs {
+                for gap in [3i64, 30, 100] {
+                    v.push(Case { scenario: sc.to_string(), k: k1, offset, source: "original".into(), variant: "verbatim".into(), target: "dest".into(), second: Some((usize::MAX, gap)) });
+                }
+            }
             for &k2 in &hs {
                 for &offset in offs {
                     for &gap in gaps {
